@@ -293,6 +293,38 @@ CLAIMED = {
         'indices C01, shadows C03, type-struct C12), not re-proved here. Trusted: Coq kernel+VM; stub lexer; a callable\'s own findings '
         '(unresolved parameter, callback parameter of a callback type) are inputs of the model.',
    ref='DESIGN.md §4 C05'),
+ 'C10': dict(
+   technique='Coq proof over a model of the annotation-field parser and writer (character loop, option parsing, serializer; vocabulary regenerated from annotationparser.py) + in-Coq correspondence on field strings + differential runs of the real block parser and writer over layouts',
+   text='Theorems (Coq, axiom-free): whatever runs of blanks (tabs, several spaces, none) stand before, between and after the '
+        'parenthesised annotation groups, exactly the groups are recovered in order (C10_annotation_layout, induction over the character '
+        'loop with its nesting level, buffer and previous-character state); the options of a list annotation come back in order and an '
+        'annotation body is split into its name and options (C10_list_options, C10_list_annotation); for EVERY list of list annotations '
+        'with distinct names and well-formed options, parsing what the project\'s writer serializes gives the same annotations, an '
+        'empty description and no complaint (C10_write_parse_roundtrip). Tie: 600 (thorough 6000) field strings - serialized '
+        'annotation sets in varying layouts, a malformed stream and character soup - go through the real _parse_fields and are compared '
+        'with Model.C10.parse_fields inside Coq (success, every annotation with its options, description), the real '
+        '_serialize_annotations is compared byte for byte with the model, and whole blocks (identifier kinds, parameters, multi-paragraph '
+        'descriptions, tags) rendered with LF/CRLF/CR, space and tab indentation, wrapped annotations and optional colons must parse to '
+        'the generated block and survive write + parse with the project\'s own writer.',
+   note='PARTIAL: the line-level state machine of parse_comment_block is tied by differential runs only, not modelled; dictionary '
+        'annotations (array, attributes) are in the model and the correspondence but the round-trip theorem is for list annotations. '
+        'Trusted: Coq kernel+VM; gen_c10.py, gen_unicode.py (Python\'s isspace set); ASCII annotation names.',
+   ref='DESIGN.md §4 C10'),
+ 'C11': dict(
+   technique='Coq proof over models of diagnostic counting/suppression, block line numbering and annotation-field error positions + robustness and position checks on the real parser',
+   text='Theorems (Coq, axiom-free): every diagnostic is counted whether or not it is displayed, so a warnings-as-errors run fails exactly '
+        'when something was diagnosed (C11_counted_even_when_suppressed, C11_fails_iff_diagnosed, induction over the message list); the '
+        'k-th line after an opening token that stands alone on line L is line L+1+k (C11_block_line_numbers); an error found in an '
+        'annotation field is reported at a character of that field, so the caret lies within the quoted line (C11_caret_within_field, '
+        'over the Model.C10 character loop that is tied to the real parser in C10). Tie on the real parser: a damaged comment (insertions '
+        'incl. NUL and non-ASCII, deletions, shuffled lines, truncation, other line endings, trailing code, soup) between two '
+        'well-formed ones never raises, never triggers the internal-error path and never loses the neighbours; a block with one of 10 '
+        'annotation defects on a known parameter line at three starting lines: every diagnostic names that file and line, quotes the '
+        'source line, keeps the caret inside it, nothing is half-applied, and counts agree with display on and off.',
+   note='PARTIAL: "never raises for any text" is tested (seeded mutation fuzzing), not proved - the block parser is not modelled; proved '
+        'are the counting law, the line arithmetic and the caret bound for annotation fields. The C lexer that extracts comments from '
+        'sources and scannermain\'s --warn-error exit are not exercised (lexer not buildable here).',
+   ref='DESIGN.md §4 C11'),
 }
 
 PLANNED = {}
